@@ -1,6 +1,8 @@
 import Cirbo.Proofs.Pattern
 import Cirbo.Proofs.Synth
 import Cirbo.Proofs.MinSteps
+import Cirbo.Proofs.ConeTable
+import Cirbo.Proofs.ConeReach
 /-!
 # C04 — SAT-based subcircuit minimisation returns an equivalent, not larger circuit
 
@@ -8,6 +10,11 @@ import Cirbo.Proofs.MinSteps
 -- OBLIGATION: c04_eval_pattern_is_bitwise_evaluation
 -- OBLIGATION: c04_synthesised_cone_agrees
 -- OBLIGATION: c04_improvement_steps_preserve_function
+-- OBLIGATION: c04_cone_simulation_computes_the_cone
+-- OBLIGATION: c04_eval_dont_cares_collects_every_leaf_vector
+-- OBLIGATION: c04_dont_care_table_defined_where_reached
+-- OBLIGATION: c04_dont_care_table_sound
+-- OBLIGATION: c04_synthesised_cone_slice_agrees
 -- PARTIAL: proved: the splice loop, abstractly — ANY finite sequence of accepted improvements (each a replace_subcircuit by a subcircuit that agrees with the cone it replaces on every value combination that occurs; that agreement is what the pattern simulation over all input assignments plus exact synthesis deliver) leaves the circuit well formed, with the same inputs position by position and the same output values on every input assignment (c04_improvement_steps_preserve_function, through the C19 theorem for replace_subcircuit); the pattern primitives of the cone simulation (leaf patterns enumerate all leaf assignments; eval_pattern is the gate's Boolean function bit by bit, for every supported type incl. n-ary gates) and — through C06 — that any cone returned by exact synthesis agrees with the requested table on every entry that is not a don't-care, with exactly size-1 gates of the basis. NOT proved (decided on every run by the search over the real minimize_subcircuits with admissible cut families, all bases and parameter settings, truth-table / interface / size comparison and enable_validation): soundness of the don't-care extraction over reachable leaf vectors, of the trivial-output shortcut, of the splice through replace_subcircuit (modelled and compared in C19), and of the driver loop over node states. The algorithm depends on Python set iteration order; it is not modelled as a whole. One open known finding (dead logic reading an improved cone) is listed in known_findings.json.
 -/
 namespace Cirbo
@@ -54,5 +61,95 @@ theorem c04_improvement_steps_preserve_function {c c' : Circuit} {ss : List Step
 
 #print axioms c04_synthesised_cone_agrees
 #print axioms c04_improvement_steps_preserve_function
+
+/-! ### the cone simulation, the don't-care extraction and the table handed to synthesis
+(`_get_subcircuits`, `_eval_dont_cares`, `_Subcircuit.evaluate_truth_table_with_dont_cares`; Model/ConeTable.lean) -/
+open Cone
+
+/-- **the simulation loop of `_get_subcircuits` computes the cone.** `leaves` is `inputs_lst` (leaf `j`
+gets `_generate_inputs_tt(n)[j]`), `nodes` the cone in topological order. If the cone is closed (every
+operand of a simulated gate is a leaf or an earlier node — what a cut guarantees, audited on every cone
+of every run) and the loop finishes, then for EVERY valuation `v` of the circuit, bit number
+`lsbRow (leaves.map v)` of the pattern of every leaf and node is that gate's value under `v` -/
+theorem c04_cone_simulation_computes_the_cone {c : Circuit} {leaves nodes : List Label} {tt : List (Label × Nat)}
+    {b v : Label → Bool} (har : ∀ g ∈ c.gates, g.ty ≠ GateType.INPUT → arityOk g.ty g.ops.length = true)
+    (hcl : Cone.Closed c leaves [] nodes) (h : simulate c leaves nodes = .ok tt) (hv : IsValB c b v) :
+    ∀ l, l ∈ leaves ∨ l ∈ nodes → ttGet tt l < 2 ^ (2 ^ leaves.length) ∧
+      (ttGet tt l).testBit (lsbRow (leaves.map v)) = v l := simulate_sound har hcl h hv
+
+/-- **`_eval_dont_cares` collects every leaf vector that occurs** (through C01's theorem about the
+per-gate truth tables): the strings it stores for a cone contain the leaf vector of every valuation -/
+theorem c04_eval_dont_cares_collects_every_leaf_vector {c : Circuit} (h : WFU c) {gtt : Dict (List V3)}
+    (hg : gatesTruthTable c = .ok gtt) {ins : List Label} (hins : ∀ l ∈ ins, l ∈ c.labels) :
+    ReachComplete c ins (inputsTT ins.length (occOf gtt (2 ^ c.inputs.length) ins)) := inputsTT_complete h hg hins
+
+/-- the table is defined exactly at the rows whose assignment string was collected, and a defined
+entry is the output pattern's bit -/
+theorem c04_dont_care_table_defined_where_reached (n : Nat) (outPats : List Nat) (reach : List (List Bool)) (j r : Nat)
+    (hj : j < outPats.length) (hr : r < 2 ^ n) :
+    entry (ttDC n outPats reach) j r = if msbBits n r ∈ reach then some (outPats[j].testBit r) else none :=
+  ttDC_entry n outPats reach j r hj hr
+
+/-- **the don't-care extraction is sound**: ANY circuit that implements the table with don't-cares
+(`Implements`: what C06 proves about the circuit exact synthesis returns) agrees with the cone on every
+valuation of the circuit, under the identification of inputs and outputs `minimize_subcircuits` uses
+(replacement input `k` ↔ `subcircuit.inputs[k] = inputs_lst[n-1-k]`, output `j` ↔ cone output `j`) —
+that is, it meets the `SliceAgrees` hypothesis of `c04_improvement_steps_preserve_function` -/
+theorem c04_dont_care_table_sound {c sub : Circuit} {leaves nodes outs : List Label} {tt : List (Label × Nat)}
+    {reach : List (List Bool)}
+    (har : ∀ g ∈ c.gates, g.ty ≠ GateType.INPUT → arityOk g.ty g.ops.length = true)
+    (hcl : Cone.Closed c leaves [] nodes) (hsim : simulate c leaves nodes = .ok tt)
+    (houts : ∀ o ∈ outs, o ∈ leaves ∨ o ∈ nodes)
+    (hreach : ReachComplete c leaves.reverse reach)
+    (hin : ∀ l, l ∈ sub.inputs → ∃ g ∈ sub.gates, g.label = l ∧ g.ty = GateType.INPUT)
+    (himpl : Implements sub leaves.length (ttDC leaves.length (outs.map (ttGet tt)) reach)) :
+    SliceAgrees c sub (leaves.reverse.zip sub.inputs) (outs.zip sub.outputs) :=
+  dc_table_slice_agrees har hcl hsim houts hreach hin himpl
+
+/-- **end to end for one cone**: the circuit built from ANY satisfying assignment of the encoding of
+the cone's table with don't-cares (computed by the simulation and `_eval_dont_cares` on a well-formed
+circuit) agrees with the cone on every valuation of the circuit -/
+theorem c04_synthesised_cone_slice_agrees {c sub : Circuit} {leaves nodes outs : List Label} {tt : List (Label × Nat)}
+    {gtt : Dict (List V3)} {sp : Spec} {σ : SVar → Bool}
+    (hw : WFU c) (hcl : Cone.Closed c leaves [] nodes) (hsim : simulate c leaves nodes = .ok tt)
+    (houts : ∀ o ∈ outs, o ∈ leaves ∨ o ∈ nodes) (hleaves : ∀ l ∈ leaves, l ∈ c.labels)
+    (hg : gatesTruthTable c = .ok gtt)
+    (hn : sp.n = leaves.length) (hm : sp.m = outs.length) (hc : sp.cons = [])
+    (htab : ∀ j t, j < sp.m → t < 2 ^ sp.n → sp.table j t =
+      entry (ttDC leaves.length (outs.map (ttGet tt))
+        (inputsTT leaves.length (occOf gtt (2 ^ c.inputs.length) leaves.reverse))) j t)
+    (hsat : sat σ (encode sp)) (hsub : solToCircuit sp (decode sp σ) = .ok sub)
+    (hin : ∀ l, l ∈ sub.inputs → ∃ g ∈ sub.gates, g.label = l ∧ g.ty = GateType.INPUT) :
+    SliceAgrees c sub (leaves.reverse.zip sub.inputs) (outs.zip sub.outputs) := by
+  have hok := c04_synthesised_cone_agrees sp σ hc hsat
+  have har : ∀ g ∈ c.gates, g.ty ≠ GateType.INPUT → arityOk g.ty g.ops.length = true := by
+    intro g hgm hgt
+    have := hw.arity g hgm
+    simpa [hgt] using this
+  have hreach := inputsTT_complete hw hg (ins := leaves.reverse) (by intro l hl; exact hleaves l (by simpa using hl))
+  rw [List.length_reverse] at hreach
+  have himpl := synthesised_implements hok hsub _ (by simp [ttDC, hm]) htab
+  rw [hn] at himpl
+  exact dc_table_slice_agrees har hcl hsim houts hreach hin himpl
+
+/-! Non-vacuity: the cone {x = AND(a,b), y = NOT(x)} over leaves a, b in a circuit where b = NOT(a):
+the leaf vectors 00 and 11 never occur, so rows 0 and 3 of the table are don't-cares -/
+def c04Ex : Circuit :=
+  ⟨[⟨"a", .INPUT, []⟩, ⟨"b", .NOT, ["a"]⟩, ⟨"x", .AND, ["a", "b"]⟩, ⟨"y", .NOT, ["x"]⟩], ["a"], ["y"], [], []⟩
+example : (simulate c04Ex ["a", "b"] ["x", "y"]).toOption.map (fun tt => (ttGet tt "x", ttGet tt "y")) = some (8, 7) := by decide
+example : ttDC 2 [7] [[false, true], [true, false]] = [[none, some true, some true, none]] := by decide
+example : Cone.Closed c04Ex ["a", "b"] [] ["x", "y"] := by
+  intro pre x post h hx g hg o ho
+  rcases pre with _ | ⟨p, _ | ⟨q, _ | _⟩⟩ <;> simp at h
+  · obtain ⟨rfl, _⟩ := h
+    simp [c04Ex, Circuit.find?] at hg; subst hg; simp at ho; rcases ho with rfl | rfl <;> simp
+  · obtain ⟨rfl, rfl, _⟩ := h
+    simp [c04Ex, Circuit.find?] at hg; subst hg; simp at ho; simp [ho]
+
+#print axioms c04_cone_simulation_computes_the_cone
+#print axioms c04_eval_dont_cares_collects_every_leaf_vector
+#print axioms c04_dont_care_table_defined_where_reached
+#print axioms c04_dont_care_table_sound
+#print axioms c04_synthesised_cone_slice_agrees
 
 end Cirbo
